@@ -3985,6 +3985,15 @@ class SchemaValidator:
                 ]
                 continue
 
+            # a checkpoint bound to a native thread group can only be depended on from within that
+            # thread group, and no imported action or checkpoint is inside a native thread group
+            if utils.is_template_entity_reference(
+                dependency_to_add, "context", "thread_group"
+            ):
+                errors += [
+                    f"{self._context(f'{path}.connectons[{i}]')}: invalid connection: checkpoint with threaded context referenced out of scope: {json.dumps(connection['add_dependency'])}"
+                ]
+
         return errors
 
     def _stitch_imported_schemas(self):
